@@ -42,11 +42,32 @@ def xNoNone : XDecl → Bool
   | .enumName _ ms _ => !(ms.any fun m => pyEq .none m.2)
   | .fmtStr _ _ => true
   | .opt _ => false
+  | .anyOf _ => false
   | .seqOf _ _ => true
   | .setOf _ => true
   | .mapStr _ => true
   | .tuplePos _ => true
   | .struct _ _ => true
+  | .structU _ _ => true
+
+/-- JSON types the deserializer of an extension declaration can possibly accept WITHOUT the model answering
+    "not modelled" (`true` wherever the top-level shape does not decide) -/
+def acceptsDocX : XDecl → DocKind → Bool
+  | _, .other => true
+  | .base f, k => acceptsDoc f k
+  | .decimal _, k => !(k == .null || k == .dict)
+  | .enumVal _ _ _, k => !(k == .list || k == .dict)
+  | .temporal _ _ ints, k => k == .str || (ints && k == .int)
+  | .enumName _ _ _, _ => true
+  | .fmtStr _ strict, k => k == .str || (!strict && (k == .list || k == .dict))
+  | .opt _, _ => true
+  | .anyOf _, _ => true
+  | .seqOf _ _, k => k == .list
+  | .setOf _, k => k == .list
+  | .mapStr _, k => k == .dict
+  | .tuplePos _, k => k == .list
+  | .struct _ _, k => k == .dict
+  | .structU _ _, k => k == .dict
 
 mutual
 def xFrag (XO : XOracles) : XDecl → PyVal → Bool
@@ -72,6 +93,7 @@ def xFrag (XO : XOracles) : XDecl → PyVal → Bool
       | .str s => XO.fmtOk kind s
       | _ => false)
   | .opt x, v => if v.isNone then xNoNone x else xFrag XO x v
+  | .anyOf xs, v => xFragAny XO xs v
   | .seqOf k x, v =>
     (match seqElems k v with
       | some xs => xs.all (xFrag XO x)
@@ -95,7 +117,24 @@ def xFrag (XO : XOracles) : XDecl → PyVal → Bool
             n == c.name && c.required.all (fun r => (lookup r attrs).isSome)
               && xCanonAttrs XO c fields attrs
           | _ => false)
+  | .structU _ _, _ => false      -- (_enable_undefined_value classes: modelled and corresponded, not in the proved fragment)
 termination_by structural x _ => x
+
+/-- `AnyOf[x₁, …, xₙ]` holding `v`: some option owns the value - its `_validate` passes and `v` lies in its
+    fragment - and every option listed before it is skipped by all three passes: by the serializer (its
+    `_validate` fails, or its serialization raises), by the constructor (its validation raises) and by the
+    deserializer (it cannot accept a document of the JSON type produced) -/
+def xFragAny (XO : XOracles) : List XDecl → PyVal → Bool
+  | [], _ => false
+  | x :: xs, v =>
+    (shallowOkX XO x v && xFrag XO x v)
+    || ((!shallowOkX XO x v || (match serX XO x v with | .error e => !xOutside e | .ok _ => false))
+        && (match validateX XO x v with | .error e => !xOutside e | .ok _ => false)
+        && (match serAnyX XO xs v with
+            | .ok j => !acceptsDocX x (docKind j)
+            | .error _ => false)
+        && xFragAny XO xs v)
+termination_by structural xs _ => xs
 
 def xFragZip (XO : XOracles) : List XDecl → List PyVal → Bool
   | [], _ => true
